@@ -26,6 +26,13 @@ Section AnyOperators.
     src_outputs binop LMAX (S f) k (PStutter pattern count (VInt c) 1 v) =
       (repeat (Yield v) k, PStutter pattern count (VInt c) (1 + Z.of_nat k) v).
   Proof. exact (src_stutter_block binop LMAX). Qed.
+  (* PDict.__next__ as written: the dict of the values' next values; it ends as soon as one of them ends *)
+  Theorem C12_src_pdict_ends_with_shortest : forall f kv1 k a a' kv2,
+    (forall k1 a1, In (k1, a1) kv1 -> exists v a1', value binop LMAX f a1 = (Yield v, a1')) ->
+    value binop LMAX f a = (Stop, a') ->
+    fst (src_PDict_next Val.binop (value binop LMAX) (anext binop LMAX) f (AD (kv1 ++ (k, a) :: kv2))) = Stop.
+  Proof. exact (src_pdict_ends_with_shortest binop LMAX). Qed.
 End AnyOperators.
 Print Assumptions C12_src_stutter_block_start.
 Print Assumptions C12_src_stutter_block_rest.
+Print Assumptions C12_src_pdict_ends_with_shortest.
